@@ -299,6 +299,11 @@ def finish(prop, tier, t0, results, level_rule, assumptions, extra=None, replays
             with open(dst, "w") as f:
                 f.write("build %s\n" % j.build)
                 f.write(body)
+        if not dst:     # never an empty path: at least a description of the failing execution
+            os.makedirs(rdir, exist_ok=True)
+            dst = os.path.join(rdir, "%s.%s.%s.txt" % (j.build, j.scenario, hashlib.sha1((j.label() + text).encode()).hexdigest()[:10]))
+            with open(dst, "w") as f:
+                f.write("job %s\ndeviations %s\n%s\n" % (j.label(), v.get("deviations", ""), text))
         lines.append("VIOLATION property=%s replay=%s" % (prop, dst))
         lines.append("  # %s" % text)
     for (text, rp) in extra_viols:
@@ -310,6 +315,11 @@ def finish(prop, tier, t0, results, level_rule, assumptions, extra=None, replays
             lines.append("KNOWN-FINDING: property=%s %s" % (prop, k.get("what", k["signature"])))
             continue
         nviol += 1
+        if not rp:
+            os.makedirs(rdir, exist_ok=True)
+            rp = os.path.join(rdir, "extra.%s.txt" % hashlib.sha1(text.encode()).hexdigest()[:10])
+            with open(rp, "w") as f:
+                f.write(text + "\n")
         lines.append("VIOLATION property=%s replay=%s" % (prop, rp))
         lines.append("  # %s" % text[:700])
     cov = dict(
